@@ -41,6 +41,15 @@ var forkOwners = map[string]bool{"blobDownload": true, "blobUpload": true}
 
 var hbIDs = map[string]int{"holder": 1, "doneclose": 2}
 
+// object life cycle ("stale pointer" rule): runners are found in the registry map
+// Scheduler.loaded, whose insert/delete happen under registryLock; teardownFuncs clear (nil)
+// pointer fields of the object while holding registryLock and the object's own objectLock
+const registryClass = "Scheduler.loaded"
+const registryLock = "Scheduler.loadedMu"
+const objectLock = "runnerRef.refMu"
+
+var teardownFuncs = map[string]bool{"runnerRef.unload": true}
+
 // ---- data ----------------------------------------------------------------------------------
 
 type lockKey string // "Type.field@base" (base "" for singleton owners), "pre:N@", "post:N@"
@@ -71,6 +80,7 @@ type access struct {
 	atomic bool
 	origin int
 	hb     []string
+	use    bool // a read whose value is used (anything but an operand of ==/!= nil)
 }
 
 type edge struct {
@@ -126,6 +136,7 @@ type analyzer struct {
 	litCount  map[string]int
 	serveSp   *spawn
 	aliasRHS  map[*ast.SelectorExpr]bool
+	cleared   map[string]bool // classes a teardown function sets to nil (minus slice-like ones)
 }
 
 func (a *analyzer) note(pos token.Pos, f string, args ...any) {
@@ -166,7 +177,16 @@ func main() {
 	repo := flag.String("repo", "/repo", "ollama tree")
 	leanOut := flag.String("lean", "", "write Lean table here")
 	jsonOut := flag.String("json", "", "write JSON here")
+	selfN := flag.Int("selftest", 0, "write N random fact tables (ops.txt/impl.txt/stats.txt) to -out and exit")
+	selfSeed := flag.Uint64("seed", 1, "selftest seed")
+	selfOut := flag.String("out", "", "selftest output directory")
 	flag.Parse()
+	if *selfN > 0 {
+		if err := selftest(*selfN, *selfSeed, *selfOut); err != nil {
+			fatal(err)
+		}
+		return
+	}
 
 	dir := filepath.Join(*repo, "server")
 	fset := token.NewFileSet()
@@ -204,6 +224,7 @@ func main() {
 		spawnByNd: map[ast.Node]*spawn{}, litCount: map[string]int{}}
 	a.scanDecls(files)
 	a.scanAliases(files)
+	a.scanCleared(files)
 	for len(a.queue) > 0 {
 		u := a.queue[0]
 		a.queue = a.queue[1:]
@@ -348,6 +369,74 @@ func (a *analyzer) scanAliases(files []*ast.File) {
 	}
 }
 
+// scanCleared finds the fields a teardown function sets to nil.  Fields that are used as slices
+// somewhere (range / len / index) are left out: reading a nil slice is harmless.
+func (a *analyzer) scanCleared(files []*ast.File) {
+	a.cleared = map[string]bool{}
+	sliceLike := map[string]bool{}
+	clsOf := func(e ast.Expr) string {
+		se, ok := unparen(e).(*ast.SelectorExpr)
+		if !ok {
+			return ""
+		}
+		sel := a.info.Selections[se]
+		if sel == nil || sel.Kind() != types.FieldVal || len(sel.Index()) != 1 {
+			return ""
+		}
+		owner := namedOf(sel.Recv())
+		if !trackedTypes[owner] {
+			return ""
+		}
+		return owner + "." + se.Sel.Name
+	}
+	for _, f := range files {
+		for _, d := range f.Decls {
+			fd, ok := d.(*ast.FuncDecl)
+			if !ok || fd.Body == nil {
+				continue
+			}
+			name := fd.Name.Name
+			if fd.Recv != nil && len(fd.Recv.List) == 1 {
+				t := fd.Recv.List[0].Type
+				if st, ok := t.(*ast.StarExpr); ok {
+					t = st.X
+				}
+				name = typeExprString(t) + "." + name
+			}
+			ast.Inspect(fd.Body, func(n ast.Node) bool {
+				switch n := n.(type) {
+				case *ast.AssignStmt:
+					if teardownFuncs[name] && len(n.Lhs) == 1 && len(n.Rhs) == 1 {
+						if id, ok := n.Rhs[0].(*ast.Ident); ok && id.Name == "nil" {
+							if c := clsOf(n.Lhs[0]); c != "" {
+								a.cleared[c] = true
+							}
+						}
+					}
+				case *ast.RangeStmt:
+					if c := clsOf(n.X); c != "" {
+						sliceLike[c] = true
+					}
+				case *ast.IndexExpr:
+					if c := clsOf(n.X); c != "" {
+						sliceLike[c] = true
+					}
+				case *ast.CallExpr:
+					if id, ok := n.Fun.(*ast.Ident); ok && id.Name == "len" && len(n.Args) == 1 {
+						if c := clsOf(n.Args[0]); c != "" {
+							sliceLike[c] = true
+						}
+					}
+				}
+				return true
+			})
+		}
+	}
+	for c := range sliceLike {
+		delete(a.cleared, c)
+	}
+}
+
 // ---- per-unit walk -------------------------------------------------------------------------
 
 type walker struct {
@@ -362,6 +451,8 @@ type walker struct {
 	commDone   []string
 	lastMapAcc int
 	loopEntry  []state
+	nilOperand map[*ast.SelectorExpr]bool
+	curNil     bool
 }
 
 func (a *analyzer) prescanSpawns(u *unit) {
@@ -432,7 +523,8 @@ func (a *analyzer) prescanSpawns(u *unit) {
 func (a *analyzer) walkUnit(u *unit) {
 	a.prescanSpawns(u)
 	w := &walker{a: a, u: u, st: newState(), fresh: map[types.Object]bool{}, origin: map[types.Object]int{},
-		holderVars: map[types.Object]bool{}, grChans: map[types.Object]bool{}, closeDone: map[string]bool{}, lastMapAcc: -1}
+		holderVars: map[types.Object]bool{}, grChans: map[types.Object]bool{}, closeDone: map[string]bool{}, lastMapAcc: -1,
+		nilOperand: map[*ast.SelectorExpr]bool{}}
 	for _, sp := range u.spawns {
 		w.st.added[lockKey(fmt.Sprintf("pre:%d@", sp.id))] = true
 	}
@@ -542,20 +634,32 @@ func (w *walker) stmt(s ast.Stmt) bool {
 	case *ast.IfStmt:
 		w.stmt(s.Init)
 		w.expr(s.Cond)
+		ne, eq := w.nilChecks(s.Cond)
 		pre := w.st
 		var outs []state
-		o, t := w.branch(func() bool { return w.stmts(s.Body.List) })
+		o, t := w.branch(func() bool {
+			for _, b := range ne {
+				w.st.added[lockKey("valid:@"+b)] = true
+			}
+			return w.stmts(s.Body.List)
+		})
 		if !t {
 			outs = append(outs, o)
 		}
+		// on the else path every `x.f == nil` disjunct of the condition was false
+		elsePre := pre.clone()
+		for _, b := range eq {
+			elsePre.added[lockKey("valid:@"+b)] = true
+		}
+		w.st = elsePre
 		if s.Else != nil {
 			o, t := w.branch(func() bool { return w.stmt(s.Else) })
 			if !t {
 				outs = append(outs, o)
 			}
-			return w.join(pre, outs, false)
+			return w.join(elsePre, outs, false)
 		}
-		return w.join(pre, outs, true)
+		return w.join(elsePre, outs, true)
 	case *ast.ForStmt:
 		w.stmt(s.Init)
 		if s.Cond != nil {
@@ -590,7 +694,15 @@ func (w *walker) stmt(s ast.Stmt) bool {
 		}
 		pre := w.st
 		w.loopEntry = append(w.loopEntry, pre)
-		o, t := w.branch(func() bool { return w.stmts(s.Body.List) })
+		o, t := w.branch(func() bool {
+			if src >= 0 && w.u.accesses[src].cls == registryClass {
+				// the element was found in the registry: live while the registry lock stays held
+				if id, ok := s.Value.(*ast.Ident); ok && id.Name != "_" {
+					w.st.added[lockKey("live:@"+id.Name)] = true
+				}
+			}
+			return w.stmts(s.Body.List)
+		})
 		w.loopEntry = w.loopEntry[:len(w.loopEntry)-1]
 		var outs []state
 		if !t {
@@ -687,6 +799,68 @@ func (w *walker) clauses(list []ast.Stmt) bool {
 		}
 	}
 	return w.join(pre, outs, !hasDefault)
+}
+
+func isNilIdent(e ast.Expr) bool {
+	id, ok := unparen(e).(*ast.Ident)
+	return ok && id.Name == "nil"
+}
+
+// nilChecks: bases x whose cleared field is known non-nil in the then-branch (`x.f != nil`,
+// conjuncts) and on the else path (`x.f == nil`, disjuncts)
+func (w *walker) nilChecks(cond ast.Expr) (ne, eq []string) {
+	base := func(e ast.Expr) string {
+		se, ok := unparen(e).(*ast.SelectorExpr)
+		if !ok {
+			return ""
+		}
+		sel := w.a.info.Selections[se]
+		if sel == nil || sel.Kind() != types.FieldVal || len(sel.Index()) != 1 {
+			return ""
+		}
+		if !w.a.cleared[namedOf(sel.Recv())+"."+se.Sel.Name] {
+			return ""
+		}
+		return types.ExprString(se.X)
+	}
+	var walkNe, walkEq func(e ast.Expr)
+	walkNe = func(e ast.Expr) {
+		be, ok := unparen(e).(*ast.BinaryExpr)
+		if !ok {
+			return
+		}
+		switch be.Op {
+		case token.LAND:
+			walkNe(be.X)
+			walkNe(be.Y)
+		case token.NEQ:
+			if isNilIdent(be.Y) {
+				if b := base(be.X); b != "" {
+					ne = append(ne, b)
+				}
+			}
+		}
+	}
+	walkEq = func(e ast.Expr) {
+		be, ok := unparen(e).(*ast.BinaryExpr)
+		if !ok {
+			return
+		}
+		switch be.Op {
+		case token.LOR:
+			walkEq(be.X)
+			walkEq(be.Y)
+		case token.EQL:
+			if isNilIdent(be.Y) {
+				if b := base(be.X); b != "" {
+					eq = append(eq, b)
+				}
+			}
+		}
+	}
+	walkNe(cond)
+	walkEq(cond)
+	return
 }
 
 // recvDoneBase recognises `case <-X.done:`
@@ -799,6 +973,9 @@ func (w *walker) assign(s *ast.AssignStmt) {
 		}
 		if p.origin >= 0 {
 			w.origin[p.obj] = p.origin
+			if w.u.accesses[p.origin].cls == registryClass {
+				w.st.added[lockKey("live:@"+p.obj.Name())] = true
+			}
 		}
 		if p.holder {
 			w.holderVars[p.obj] = true
@@ -959,7 +1136,9 @@ func (w *walker) selector(e *ast.SelectorExpr, mode string) {
 			if id, ok := unparen(e.X).(*ast.Ident); ok {
 				baseObj = w.obj(id)
 			}
+			w.curNil = w.nilOperand[e]
 			w.record(e.Pos(), cls, owner, kind, types.ExprString(e.X), baseObj, false, w.a.atomicF[cls] && mode == "atomic")
+			w.curNil = false
 			break
 		}
 		t = f.Type()
@@ -973,7 +1152,7 @@ func (w *walker) selector(e *ast.SelectorExpr, mode string) {
 
 func (w *walker) record(pos token.Pos, cls, owner, kind, base string, baseObj types.Object, init, atomic bool) {
 	ac := &access{u: w.u, line: w.a.fset.Position(pos).Line, cls: cls, owner: owner, kind: kind, base: base,
-		st: w.st.clone(), init: init, atomic: atomic, origin: -1}
+		st: w.st.clone(), init: init, atomic: atomic, origin: -1, use: !w.curNil}
 	if baseObj != nil {
 		if w.fresh[baseObj] {
 			ac.init = true
@@ -1063,6 +1242,14 @@ func (w *walker) expr(e ast.Expr) {
 		}
 		w.expr(e.X)
 	case *ast.BinaryExpr:
+		if e.Op == token.EQL || e.Op == token.NEQ {
+			if se, ok := unparen(e.X).(*ast.SelectorExpr); ok && isNilIdent(e.Y) {
+				w.nilOperand[se] = true
+			}
+			if se, ok := unparen(e.Y).(*ast.SelectorExpr); ok && isNilIdent(e.X) {
+				w.nilOperand[se] = true
+			}
+		}
 		w.expr(e.X)
 		w.expr(e.Y)
 	case *ast.StarExpr:
@@ -1132,10 +1319,21 @@ func (w *walker) lockOp(name string, x ast.Expr) bool {
 	if name == "Lock" || name == "RLock" {
 		w.st.added[k] = true
 		delete(w.st.removed, k)
-	} else if w.st.added[k] {
-		delete(w.st.added, k)
 	} else {
-		w.st.removed[k] = true
+		if w.st.added[k] {
+			delete(w.st.added, k)
+		} else {
+			w.st.removed[k] = true
+		}
+		cls, base := keyBase(k)
+		for x := range w.st.added {
+			xc, xb := keyBase(x)
+			// pointers found in the registry stop being live when the registry lock goes;
+			// a nil re-check stops counting when the object's lock goes
+			if (cls == registryLock && xc == "live:") || (cls == objectLock && xc == "valid:" && xb == base) {
+				delete(w.st.added, x)
+			}
+		}
 	}
 	return true
 }
